@@ -143,7 +143,7 @@ func (b *mxBase) expectedServerProtocol() vanguard.Protocol {
 }
 
 func (b *mxBase) config() world.Config {
-	cfg := world.Config{Protocols: b.TgtProtos, Codecs: b.TgtCodecs, MaxMsg: 1 << 20}
+	cfg := world.Config{Protocols: b.TgtProtos, Codecs: b.TgtCodecs, MaxMsg: 1 << 20, Decoy: true}
 	if len(b.TgtComp) == 0 {
 		cfg.NoCompress = true
 	} else {
